@@ -541,6 +541,23 @@ func genCase(t *rapid.T) Case {
 				file[rapid.IntRange(0, len(file)-1).Draw(t, "boff")] = rapid.SampledFrom([]byte{0x00, 0xff, 0x80, 0x7f, ':', 'A', '#', '@', '%', ' '}).Draw(t, "bval")
 			}
 		}
+		if rapid.Bool().Draw(t, "strbyte") {
+			// first / last / middle content byte of one string field set to a hostile byte
+			var strs []refbundle.Slot
+			for _, s := range slots {
+				if (s.Major == 2 || s.Major == 3) && s.Value > 0 && s.Value < 1<<20 {
+					strs = append(strs, s)
+				}
+			}
+			if len(strs) > 0 {
+				s := rapid.SampledFrom(strs).Draw(t, "strslot")
+				start := s.Off + 1 + s.Width
+				pos := start + rapid.SampledFrom([]int{0, int(s.Value) - 1, int(s.Value) / 2}).Draw(t, "strpos")
+				if pos < len(file) {
+					file[pos] = rapid.SampledFrom([]byte{0x00, 0xff, 0x80}).Draw(t, "strval")
+				}
+			}
+		}
 		return Case{Target: "bundle.Read", Input: file, Origin: "assembled+patched"}
 	case "bundle-family":
 		a := smallBundleAsm(t)
